@@ -392,9 +392,12 @@ class MainRun(Harness):
         inp = {'hosts': [zx.fresh_str('h%d' % i, 2, ((0x61, 0x7A),)) for i in range(n)],
                'ports': [zx.fresh_str('p%d' % i, self.nport, DIG) for i in range(n)], 'dp': zx.fresh_int('dp', 1, 65535)}
         if zx.active():
-            for p_ in inp['ports']:
+            for kind, p_ in zip(self.shape, inp['ports']):
                 v = z_int(p_)
-                zx.cur().assume(s_and(v >= 1, v <= 65535))
+                if kind == 'badport':
+                    zx.cur().assume(s_or(v < 1, v > 65535))
+                else:
+                    zx.cur().assume(s_and(v >= 1, v <= 65535))
         return inp
 
     def expected(self, inp):
@@ -418,7 +421,7 @@ class MainRun(Harness):
         else:
             lines = []
             for kind, h, p in zip(self.shape, inp['hosts'], inp['ports']):
-                lines.append({'blank': '\n', 'host': h + '\n', 'host:port': h + ':' + p + '\n', 'padded': ' ' + h + ':' + p + ' \n'}[kind])
+                lines.append({'blank': '\n', 'host': h + '\n', 'host:port': h + ':' + p + '\n', 'padded': ' ' + h + ':' + p + ' \n', 'badport': h + ':' + p + '\n'}[kind])
             vals['targets'] = 'targets.txt'
             vals['threads'] = 1
             argv = ['-T', 'targets.txt']
@@ -451,6 +454,11 @@ class MainRun(Harness):
 
     def check(self, inp, obs):
         r = obs['ret']
+        if 'badport' in self.shape:
+            # a port outside 1..65535 anywhere in the targets file: rejected before ANY connection is made (no resolver call, no socket), not by an internal error
+            yield 'bad-port-rejected-before-any-connection', obs['resolved'] == [] and obs['dialled'] == []
+            yield 'bad-port-rejected-with-an-error-status-not-a-crash', (isinstance(r, Exc) and r.type == 'SystemExit') or (not isinstance(r, Exc) and r != 0)
+            return
         yield 'run-completes', not isinstance(r, Exc)
         if isinstance(r, Exc):
             return
@@ -506,6 +514,8 @@ def tasks(tier):
                    ('host', 'host:port', 'host', 'host:port', 'host')]):
         for with_p in (False, True):
             T.append(MainRun(shape, with_p, 2))
+    for shape, nd in [(('host', 'badport'), 5), (('badport', 'host'), 5), (('host:port', 'badport', 'host'), 6), (('host', 'badport'), 1)]:
+        T.append(MainRun(shape, False, nd))
     for shape in ([('cmd-host:port',), ('host:port', 'host')] if q else
                   [('cmd-host:port',), ('host:port', 'host'), ('host', 'host:port'), ('host:port', 'host:port'), ('padded', 'blank', 'host')]):
         for nd in ((5,) if q else (1, 3, 4, 5)):
